@@ -80,6 +80,23 @@ theorem C07_resizes_bounded (t : Ty) (data : Bytes) (e : Endian) :
       n ≤ data.length ∧ ((decode t data e).isException = false → n ≤ resizeLimit) :=
   Cpp.decode_resizes_bounded t data e
 
+/-- no allocation disproportionate to the input, in BYTES: every `resize(n)` the decoder requests fits the input at the
+    fixed wire size of some array element type of the schema (`resizeElems t`: `codec_traits<T>::size`, or 1 for
+    elements of dynamic size): `n * el ≤ size` (decoder.hpp do_decode_resize since e9b58a7; greedy `n = (end - pos) / size`) -/
+theorem C07_resizes_fit (t : Ty) (data : Bytes) (e : Endian) :
+    ∀ n ∈ (decode t data e).resizes, ∃ el ∈ Cpp.resizeElems t, n * el ≤ data.length :=
+  Cpp.decode_resizes_fit t data e
+
+/-- the request of one sizer-driven `do_decode_resize` that lets decoding continue fits the bytes behind the counter at
+    the element size of that very array: `cnt * resizeElem n all ≤ size - pos` -/
+theorem C07_sizer_resize_fits (e : Endian) (all : List Member) (n : String) (t : Ty) (r : List Member) (msize a : Nat)
+    (padding : Int) (ls : List (Nat × Nat × Int)) (data : Bytes) (pos : Nat) (rs : List Nat) (lens : List (String × Nat))
+    (hs : isSizer n all = true) (hpos : pos ≤ data.length) (vs : List Val) (pos' : Nat) (rs' : List Nat) (p : Nat)
+    (h : decMs e all (.mk n t .plain :: r) ((msize, a, padding) :: ls) data pos rs lens = (.ok vs pos' rs', p)) :
+    ∃ cnt pos1 later, rs' = later ++ cnt :: rs ∧ pos ≤ pos1 ∧ pos1 ≤ pos' ∧ pos' ≤ data.length ∧
+      cnt * Cpp.resizeElem n all ≤ data.length - pos1 ∧ cnt ≤ resizeLimit :=
+  Cpp.decMs_sizer_ok_fits e all n t r msize a padding ls data pos rs lens hs hpos vs pos' rs' p h
+
 /-- FULL STATEMENT, second clause: whatever byte string the decoder accepts, it consumed it exactly -
     the decoded object re-encodes to as many bytes as were read (`get_byte_size() = size`); schemas
     accepted by prophyc, without shifted counters and without the D4 shape (`limFirst`: the arrays
